@@ -17,7 +17,7 @@ from ..frontend import attr_chain, src, walk_no_nested
 TRANSPARENT = {
     "repeat", "flatten", "ravel", "reshape", "array", "asarray", "transpose", "squeeze", "atleast_2d", "atleast_1d",
     "expand_dims", "swapaxes", "copy", "deepcopy", "float", "asanyarray", "vstack", "hstack", "stack", "concatenate",
-    "compute", "persist", "diagonal", "astype",
+    "compute", "persist", "diagonal", "astype", "moveaxis", "rollaxis", "ascontiguousarray", "atleast_3d", "broadcast_to", "tile",
 }
 SUMS = {"sum", "nansum", "mean"}
 PRODUCTS = {"dot", "matmul", "multiply", "tensordot", "einsum", "outer", "mult_along_axis", "inner"}
@@ -27,11 +27,12 @@ MAX_TERMS = 400
 
 
 class Pol:
-    def __init__(self, P, func, opaque=(), track_inv=False, track_coef=False):
+    def __init__(self, P, func, opaque=(), track_inv=False, track_coef=False, inline_repo=False):
         self.P = P
         self.f = func
         self.track_inv = track_inv  # atoms met in a denominator are written "1/atom"
         self.track_coef = track_coef  # numeric literals other than 0, 1, -1 become atoms "#<magnitude>"
+        self.inline_repo = inline_repo  # module-level helper functions of the package are looked into (their parameter atoms renamed)
         self.opaque = set(opaque)  # local names kept as atoms instead of being substituted
         self.opaque_label = dict(opaque) if isinstance(opaque, dict) else {}  # name -> atom text (so that rules need not know the name)
         self.du = get_defuse(func, P)
@@ -279,6 +280,29 @@ class Pol:
                 t_ = list(dict.fromkeys(sub.value_terms()))
                 if t_ and not sub.unknown:
                     return t_
+        # a helper function of the package called with plain access paths: the terms of what it returns, with the atoms of its
+        # parameters renamed to the caller's arguments (opt-in)
+        if self.inline_repo and getattr(self, "_depth", 0) < 2:
+            tg = [t[1] for t in self.P.resolve_callee(fn, self.f) if t[0] == "repo"]
+            if tg and all(isinstance(a, (ast.Name, ast.Attribute, ast.Constant)) for a in args + [k.value for k in e.keywords]):
+                callee = tg[0]
+                bound = self.P.bind_args(callee, e.args, e.keywords)
+                sub = Pol(self.P, callee, track_inv=self.track_inv, track_coef=self.track_coef, inline_repo=True)
+                sub._depth = getattr(self, "_depth", 0) + 1
+                t_ = list(dict.fromkeys(sub.value_terms()))
+                if t_ and not sub.unknown:
+                    ren = {p_: src(a_) for p_, a_ in bound.items() if isinstance(a_, (ast.Name, ast.Attribute))}
+
+                    def rn(atom):
+                        inv = atom.startswith("1/")
+                        base = atom[2:] if inv else atom
+                        for p_, new in ren.items():
+                            if base == p_ or base.startswith(p_ + ".") or base.startswith(p_ + "["):
+                                base = new + base[len(p_):]
+                                break
+                        return ("1/" if inv else "") + base
+
+                    return [(s_, frozenset(rn(x) for x in a_)) for s_, a_ in t_]
         # repository callee or unknown library call: opaque, unknown sign
         # the result is a fresh atom (its own polarity is +); what is inside is not visible to sign rules
         self.unknown.append(src(e.func))
